@@ -199,6 +199,11 @@ def attribute(job, ob):
         return ({"C01", "C02", "C19", "C16", "C10", "C13", "C14"} & props) or props
     if kind == "event-match" and "C19" in props:
         return props - {"C04", "C18"}
+    if kind == "event-match" and name.endswith("+fault"):
+        # after a fault of the environment the two sides must still deliver/raise the same things at the same
+        # points (C06: exactly the items the stdlib delivers before failing; never deferred, no further use)
+        base = attribute(job, dict(ob, name=name[:-len("+fault")]))
+        return base | ({"C06"} & props)
     if kind == "event-match":
         m = re.search(r"/event-match/(\w+)@[^~]*~(\w+)@", name)
         ik, rk = (m.group(1), m.group(2)) if m else ("?", "?")
